@@ -67,8 +67,73 @@ def rule_r1_r2(ctx, rep):
     rep.floor("tag constructions", 4)
 
 
+def _redeclared_expr(ctx, tx):
+    """the expression (in the general exporter) whose value is iterated to emit the xmlns declarations of a non-root node:
+    (expression, local it is bound to) or None"""
+    nodep = tx.params[0]
+    parentp = tx.params[1] if len(tx.params) > 1 else None
+    emit_vars = set()
+    for n in ast.walk(tx.node):
+        if isinstance(n, (ast.ListComp, ast.GeneratorExp, ast.For)):
+            body_txt = norm(n.elt) if not isinstance(n, ast.For) else " ".join(norm(x) for x in n.body)
+            if "xmlns:" in body_txt:
+                it = n.generators[0].iter if not isinstance(n, ast.For) else n.iter
+                if isinstance(it, ast.Call) and isinstance(it.func, ast.Attribute) and it.func.attr == "items":
+                    it = it.func.value
+                if isinstance(it, ast.Name):
+                    emit_vars.add(it.id)
+    for n in ast.walk(tx.node):
+        if isinstance(n, ast.Assign) and len(n.targets) == 1 and isinstance(n.targets[0], ast.Name) and n.targets[0].id in emit_vars:
+            names_ = {x.id for x in ast.walk(n.value) if isinstance(x, ast.Name)}
+            if parentp in names_ and nodep in names_:
+                return n.value, n.targets[0].id
+    return None
+
+
 def rule_r3(ctx, rep):
     prog = ctx.prog
+    cases = [
+        ({"a": "1", "b": "2", "c": "3"}, {"a": "1", "b": "9"}, {"b": "2", "c": "3"}),
+        ({"a": "1"}, {"a": "1"}, {}),
+        ({}, {"a": "1"}, {}),
+        ({"a": "1"}, {}, {"a": "1"}),
+        ({"a": "1", "b": "2"}, {"b": "2", "a": "1", "z": "0"}, {}),
+    ]
+    if NSP not in prog.funcs:
+        # the helper was folded into the exporter: evaluate the expression that yields the bindings to re-declare
+        from ..condeval import eval_at
+        tx = prog.func(EXPORTERS[0])
+        r = _redeclared_expr(ctx, tx)
+        if r is None:
+            raise AnalysisError(f"anchor vanished: function {NSP} (and no expression in to_xml that computes the bindings to re-declare from the node's and the parent's maps)")
+        expr, var = r
+        nodep, parentp = tx.params[0], tx.params[1]
+        for (child, parent, want) in cases:
+            rep.count("re-declaration cases folded")
+            env = {nodep: {"__obj__": True, "nsmap": dict(child), "_nsmap": dict(child)}, parentp: {"__obj__": True, "nsmap": dict(parent), "_nsmap": dict(parent)}}
+            try:
+                got = PEval(ctx.world).eval(expr, dict(env), tx)
+            except Raised as ex:
+                got = f"raises {ex.cls}"
+            except PEvalUnsupported as ex:
+                raise AnalysisError(f"cannot fold the re-declaration expression `{norm(expr)[:80]}`: {ex}")
+            ok = got == want
+            rep.oblige(("R3", repr(child), repr(parent)), ok, sample={"child map": child, "parent map": parent, "re-declared": got})
+            if not ok:
+                rep.add("R3", tx.qname, expr, f"for child map {child} under parent map {parent} the bindings to re-declare are {got}; "
+                        f"exactly the prefixes absent from or bound differently in the parent must be re-declared: {want}", tx.loc(expr))
+                break
+        rep.count("calls of the re-declaration helper")
+        w = ctx.world
+        rec = [n for n in ast.walk(tx.node) if isinstance(n, ast.Call) and any(tg.func is not None and tg.func.qname == tx.qname for tg in w.resolve_call(w.types(tx), n))]
+        for rc in rec:
+            am = w.arg_map(w.resolve_call(w.types(tx), rc)[0], rc)
+            ok = isinstance(am.get(parentp), ast.Name) and am[parentp].id == nodep
+            rep.oblige(("R3", "rec", norm(rc)), ok)
+            if not ok:
+                rep.add("R3", tx.qname, rc, "children are exported without their parent: every binding is re-declared or none is", tx.loc(rc))
+        rep.floor("re-declaration cases folded", 5)
+        return
     fi = prog.func(NSP)
     rep.touch(fi)
     pe = PEval(ctx.world)
